@@ -5,7 +5,7 @@
 (*  Evaluate (ok; n = value * 16 when exactly representable) and the text      *)
 (*  rendered for {math:E}, {if case="E" true="T" false="F"} and                *)
 (*  <if case="E">T<else />F</if>.                                              *)
-EXTENDS QExpr, Json, IOUtils
+EXTENDS QExprImplDefs, Json, IOUtils
 Tr == ndJsonDeserialize(IOEnv.TRACE)
 VARIABLE l
 Observed(e) == IF e.ok = 1 THEN (IF e.exact = 1 THEN Num(e.n) ELSE [t |-> "inexact"]) ELSE None
@@ -30,6 +30,10 @@ HasNegPow(l0) == \E i \in 1..Len(l0) :
                    \/ (i % 2 = 1 /\ l0[i].t = "sub" /\ HasNegPow(l0[i].e))
                    \/ (i % 2 = 0 /\ l0[i] = "^")
 NegPow(e) == LET o == Observed(e) IN HasNegPow(e.tokens) /\ Unjudged \notin AdmissiblePinned(e.tokens) /\ o \in AdmissiblePinned(e.tokens)
-Check == /\ (l <= 0 \/ EventOK(Tr[l]) \/ (IF NegPow(Tr[l]) THEN PrintT(<<"NEGPOW", l>>) ELSE PrintT(<<"MISMATCH", l>>)))
+\* the transcription QExprImplDefs (what TLC checks against the specification for every operator sequence) is what the engine does:
+\* the observed value is the value of the transcribed walk (with the recorded power defect pinned), wherever that is judged
+Drifts(e) == LET v == ImplValueOf(e.tokens, TRUE, "current") IN v # Unjudged /\ v # Observed(e)
+Check == /\ (l <= 0 \/ ~Drifts(Tr[l]) \/ PrintT(<<"DRIFT", l>>))
+         /\ (l <= 0 \/ EventOK(Tr[l]) \/ (IF NegPow(Tr[l]) THEN PrintT(<<"NEGPOW", l>>) ELSE PrintT(<<"MISMATCH", l>>)))
          /\ (l <= 0 \/ Unjudged \notin Admissible(Tr[l].tokens) \/ PrintT(<<"UNJ", l>>))          \* (counted in the evidence: not judged)
 =============================================================================
